@@ -136,9 +136,10 @@ def free_udp_port(family=socket.AF_INET):
 
 class Server:
     def __init__(self, binary, directory, *, single=False, read_only=False, overwrite=False, keep=False, send_dir=None, recv_dir=None,
-                 dup=None, ip="127.0.0.1", logdir=None, strace=None, extra=(), tag="srv", shuffle=None, d_last=False, cwd=None, fsize_limit=None):
+                 dup=None, ip="127.0.0.1", logdir=None, strace=None, extra=(), tag="srv", shuffle=None, d_last=False, cwd=None, fsize_limit=None, pid_limit=None):
         self.binary, self.ip = binary, ip
         self.fsize_limit = fsize_limit
+        self.pid_limit = pid_limit
         self.family = socket.AF_INET6 if ":" in ip else socket.AF_INET
         self.args = ["-i", ip, "-d", directory]
         if send_dir:
@@ -196,6 +197,10 @@ class Server:
             if self.strace:
                 cmd = ["strace", "-f", "-qq", "-o", self.strace, "-e",
                        "trace=open,openat,creat,unlink,unlinkat,rename,renameat,renameat2,mkdir,mkdirat,truncate,ftruncate,link,linkat,symlink,symlinkat,rmdir"] + cmd
+            if self.pid_limit:
+                # own PID namespace with a small pid_max: the server cannot have more than about that many threads
+                # (thread creation fails with EAGAIN, memory is not affected)
+                cmd = ["unshare", "-p", "-f", "--mount-proc", "sh", "-c", f'echo {int(self.pid_limit)} > /proc/sys/kernel/pid_max && exec "$0" "$@"'] + cmd
             self.logf = open(self.log_path, "wb")
             pre = None
             out = self.logf
